@@ -258,6 +258,7 @@ Definition cs_line_height (f : font) : Z := f_ch f.
 Record bfont := BFont {
   bf_name : list Z;     (* "<module>::<CONST>" as ASCII codes *)
   bf_rawlen : Z;        (* byte length of the include_bytes! file *)
+  bf_digest : Z;        (* FNV-1a (64 bit, low 60 bits) of the file's rows with the padding bits masked: the glyph bitmaps *)
   bf_map : Z;           (* index into the mapping table *)
   bf_font : font
 }.
